@@ -18,6 +18,8 @@ void set_hook(string k, object ob, string fn) { hook[k] = ({ ob, fn }); }
 void clear_hooks() { hook = ([]); }
 private void fire(string k) {
   mixed *h = hook[k];
+  // policy "burn" = name of a master apply: that apply spends whatever is left of the evaluation budget (and more)
+  if (pol["burn"] == k) { int i; for (i = 0; i < 100000000; i++) ; }
   if (h) { map_delete(hook, k); nfired++; if (h[0]) call_other(h[0], h[1]); }
 }
 
